@@ -160,5 +160,5 @@ fn oracle(c: &SiteCase, rec: &Rec, _: &Ctx) -> Result<(), String> {
 }
 
 pub fn parts() -> Vec<PartDef> {
-    vec![part("sites", 300_000, 10_000_000, strat, oracle)]
+    vec![part("sites", 4_000_000, 80_000_000, strat, oracle)]
 }
